@@ -23,7 +23,7 @@ contract(f"{LT_}:LocationTableEntry.check_duplicate_sn", props=["C06"], shapes={
                   "is_newest": "dq_at(self.dpl_deque, dq_len(self.dpl_deque) - 1) == sn",
                   "length": "dq_len(self.dpl_deque) == (old(dq_len(self.dpl_deque)) + 1 if old(dq_len(self.dpl_deque)) < dq_maxlen(self.dpl_deque) else dq_maxlen(self.dpl_deque))",
                   "others_kept_unless_oldest_evicted": "forall(lambda x: implies(x != sn, set_has(self.dpl_set, x) == (old(set_has(self.dpl_set, x)) and not (old(dq_len(self.dpl_deque)) == dq_maxlen(self.dpl_deque) and x == old(dq_at(self.dpl_deque, 0))))))",
-                  "window_is_the_last_maxlen": "forall(lambda i: implies(0 <= i < dq_len(self.dpl_deque) - 1, dq_at(self.dpl_deque, i) == old(dq_at(self.dpl_deque, i + (1 if old(dq_len(self.dpl_deque)) == dq_maxlen(self.dpl_deque) else 0)))))"},
+                  "window_is_the_last_maxlen": "forall(lambda p: implies(dq_lo(self.dpl_deque) <= p < dq_hi(self.dpl_deque) - 1, dq_at_pos(self.dpl_deque, p) == old(dq_at_pos(self.dpl_deque, p)))) and dq_hi(self.dpl_deque) == old(dq_hi(self.dpl_deque)) + 1 and dq_lo(self.dpl_deque) == old(dq_lo(self.dpl_deque)) + (1 if old(dq_len(self.dpl_deque)) == dq_maxlen(self.dpl_deque) else 0)"},
          raises_unchanged=[DUP],
          canary={"evicts_newest": "old(dq_len(self.dpl_deque)) < 1 or set_has(self.dpl_set, old(dq_at(self.dpl_deque, 0)))"},
          cover=["old(dq_len(self.dpl_deque)) == dq_maxlen(self.dpl_deque)"], **S)
